@@ -7,6 +7,8 @@
 //	-mode run     barrier-start stress of every runtime helper named by the property and
 //	              the per-request echo check against handlers assembled from the runtime
 //	              helpers the way generated code assembles them; writes result.json
+//	-mode echo    the echo check against a server built from GENERATED code (-addr URL),
+//	              started by checks/c20.py from <out>/gen/store/cmd/echo
 //	-mode stress  only the stress of one helper (-helper name), used by the search that
 //	              follows a broken instance proof (binary built with -race)
 //
@@ -31,6 +33,7 @@ func main() {
 	hmod := flag.String("harnessmod", "/verif/harness/go.mod", "")
 	helper := flag.String("helper", "", "stress mode: helper to stress (empty = all)")
 	replay := flag.String("replay", "", "")
+	addr := flag.String("addr", "", "echo mode: base URL of the server built from generated code")
 	flag.Parse()
 
 	switch *mode {
@@ -44,6 +47,8 @@ func main() {
 		if err := os.WriteFile(filepath.Join(*out, "gen_files.json"), b, 0o644); err != nil {
 			panic(err)
 		}
+	case "echo":
+		os.Exit(echoMain(*seed, *tier, *addr, *out))
 	case "stress":
 		os.Exit(stressMain(*seed, *tier, *helper, *out))
 	case "run":
